@@ -688,7 +688,7 @@ static const Course COURSES[] = {
   {"lon1-outside-range", 5, -190, 80, 2e6, 30, 200, false},
   {"zero-distance", -33, 150, 47, 0, -33, 150, false},
   {"to-the-pole-inverse", 45, 0, 30, 1e3, 90, 60, false},
-  {"west-multi-circuit", 60, 0, 270, 3e7, 60.000001, -1e-6, false},
+  {"west-multi-circuit", 60, 0, 270, 3e7, 60.000001, -1e-6, true},     // quick too: spans > 180 deg of longitude (S12 must not depend on LONG_UNROLL)
   {"opposite-meridians", 30, 0, -86, 1.2e7, 40, 180, false},
   {"tiny", 10, 10, 33, 1e-3, 10 + 1e-9, 10 + 1e-9, false},
 };
@@ -705,7 +705,7 @@ static std::string rmaskname(unsigned sel) {
 static void run_rhumb(Ctx& ctx, bool T) {
   struct RE { double a, f; bool exact, quick; };
   const RE res[] = {{WA, WF, false, true}, {WA, WF, true, true}, {WA, 0.1, true, false}, {WA, -1 / 150.0, false, false}, {WA, -0.1, true, false}, {WA, 0.01, false, false}, {WA, 0, true, false}, {1, 1 / 150.0, false, false}};
-  ctx.bound("rhumb", "all 2^6 subsets of Rhumb::mask {LATITUDE,LONGITUDE,AZIMUTH,DISTANCE,AREA,LONG_UNROLL} for GenDirect, RhumbLine::GenPosition and GenInverse; all overloads; " + std::string(T ? "8 ellipsoid/mode combinations x 15 courses" : "WGS84 series and exact x 3 courses"));
+  ctx.bound("rhumb", "all 2^6 subsets of Rhumb::mask {LATITUDE,LONGITUDE,AZIMUTH,DISTANCE,AREA,LONG_UNROLL} for GenDirect, RhumbLine::GenPosition and GenInverse; all overloads; " + std::string(T ? "8 ellipsoid/mode combinations x 15 courses" : "WGS84 series and exact x 4 courses"));
   ctx.sub("rhumb");
   for (const RE& re : res) for (int ci = 0; ci < NCOURSE; ++ci) {
     const Course& c = COURSES[ci];
